@@ -80,6 +80,15 @@ impl World {
     }
 
     /// Compares a complete paged answer with the model's ledger at the tip it names.
+    fn log_answer(&mut self, all: &[U]) {
+        let mut f = crate::rng::Fnv::default();
+        for u in all {
+            f.write(&u.0);
+            f.write_u64(u.1 as u64 ^ (u.2 << 1) ^ ((u.3 as u64) << 40));
+        }
+        self.log.write_u64(f.0);
+    }
+
     pub fn compare_utxo_answer(
         &mut self,
         prop: &str,
@@ -90,6 +99,7 @@ impl World {
         what: &str,
     ) -> Check {
         self.stats.oracle_comparisons += 1;
+        self.log_answer(all);
         let first = &pages[0];
         let tip_hash = Self::hash_of(&first.tip_block_hash);
         let Some(tip) = self.id_of(&tip_hash) else {
